@@ -225,8 +225,9 @@ def r17b(ck, prog):
         return
     nsrc, dsrc = reaching_sources(K, num), reaching_sources(K, den)
     import re
-    nf = set(re.findall(r"stat->(\w+)", " ".join(nsrc)))
-    df = set(re.findall(r"stat->(\w+)", " ".join(dsrc)))
+    allf = set(cls)
+    nf = set(re.findall(r"(?:->|\.)\s*(\w+)", " ".join(nsrc))) & allf
+    df = set(re.findall(r"(?:->|\.)\s*(\w+)", " ".join(dsrc))) & allf
     ck.inst("R17b", where, "score = %s * (%s) / (%s)" % (factor, sorted(nf), sorted(df)), prog.config)
     if factor != 100:
         ck.violation("R17b", "R17b/kalign_msa_compare/factor", where, "the score is scaled by %s, not 100" % factor, prog.config)
@@ -246,6 +247,15 @@ def r17b(ck, prog):
     # counters start at zero
     zero = {a.kids[0].strip().d["field"] for a in K.body.find("BinaryOperator") if a.d["op"] == "=" and
             a.kids[0].strip().k == "MemberExpr" and a.kids[0].strip().d.get("rec") == "cmp_stats" and const_value(a.kids[1]) == 0}
+    for dn in K.body.find("DeclStmt"):
+        for kid in dn.kids:
+            if kid.role == "declinit" and "cmp_stats" in (kid.decl.get("ty") or "") and "*" not in (kid.decl.get("ty") or ""):
+                il = kid.strip(casts=True)
+                if il.k == "InitListExpr" and all((x.cv == 0) or x.k == "ImplicitValueInitExpr" for x in il.kids):
+                    zero |= first | second | match          # struct cmp_stats s = {0}: every member starts at zero
+    for c in K.body.calls("memset", "calloc"):
+        if "cmp_stats" in c.text() and ((c.callee == "memset" and const_value(c.args[1]) == 0) or c.callee == "calloc"):
+            zero |= first | second | match
     if not (first | second | match) <= zero:
         # zeroing delegated to a helper that receives the stats object
         for c in K.body.calls():
@@ -387,6 +397,110 @@ def r17f(ck, prog):
                          "so identical alignments no longer score exactly 100" % narrow[0].text()[:40], prog.config)
 
 
+_INT_BITS = {"char": 8, "signed char": 8, "unsigned char": 8, "short": 16, "unsigned short": 16, "int": 32, "unsigned int": 32,
+             "int32_t": 32, "uint32_t": 32, "int16_t": 16, "uint16_t": 16, "int8_t": 8, "uint8_t": 8,
+             "long": 64, "unsigned long": 64, "long long": 64, "unsigned long long": 64, "int64_t": 64, "uint64_t": 64, "size_t": 64}
+
+
+def _bits(ty):
+    t = (ty or "").replace("const ", "").strip()
+    return _INT_BITS.get(t)
+
+
+def r17h(ck, prog):
+    """the counters are as wide as struct cmp_stats declares them all the way to the division: no local variable and no
+    conversion of an integer type narrower than the counter fields lies between a counter and *score (the number of relations
+    is (rows-1) x residues and passes 2^31 for alignments of a few thousand rows)"""
+    K = prog.fn("kalign_msa_compare")
+    rec = prog.records.get("cmp_stats")
+    if rec is None:
+        raise AnalysisBroken("R17h slot: struct cmp_stats not found")
+    fb = {f["name"]: _bits(f["ty"]) for f in rec["fields"]}
+    if not fb or any(v is None for v in fb.values()):
+        raise AnalysisBroken("R17h: the counter fields of struct cmp_stats are not plain integer types (%s)" % fb)
+    wmin = min(fb.values())
+    outs = [a for a in K.body.find("BinaryOperator") if a.d["op"] == "=" and a.kids[0].strip().k == "UnaryOperator" and a.kids[0].strip().d["op"] == "*"
+            and a.kids[0].strip().kids[0].strip(casts=True).k == "DeclRefExpr" and a.kids[0].strip().kids[0].strip(casts=True).d.get("dk") == "Parm"
+            and a.kids[0].strip().ty in ("float", "double")]
+    if not outs:
+        raise AnalysisBroken("R17h slot: the store through the score pointer was not found in kalign_msa_compare")
+
+    def has_counter(e):
+        return any(m.k == "MemberExpr" and m.d.get("rec") == "cmp_stats" for m in e.walk())
+    n = 0
+    for a in outs:
+        seen = set()
+        work = [a.kids[1]]
+        bad = []
+        while work:
+            e = work.pop()
+            for x in e.walk():
+                if x.k in ("ImplicitCastExpr", "CStyleCastExpr") and x.d.get("ck") == "IntegralCast" and _bits(x.ty) is not None and \
+                        _bits(x.ty) < wmin and x.kids and has_counter(x.kids[0]):
+                    bad.append((x, "converted to %s" % x.ty))
+                if x.k == "DeclRefExpr" and x.d.get("dk") == "Var" and not x.d.get("g") and x.d["did"] not in seen:
+                    seen.add(x.d["did"])
+                    defs = [d for d, _ in local_defs(K, x.d["did"]) if d is not None]
+                    if any(has_counter(d) for d in defs) and _bits(x.ty) is not None and _bits(x.ty) < wmin:
+                        bad.append((x, "held in the %s variable %s" % (x.ty, x.d["name"])))
+                    work += defs
+        n += 1
+        where = site(prog, a, "score")
+        ck.inst("R17h", where, "counters are %d bit wide; %d local(s) between them and *score" % (wmin, len(seen)), prog.config)
+        for x, what in bad[:2]:
+            ck.violation("R17h", "R17h/kalign_msa_compare/narrow", site(prog, x, "narrow"),
+                         "a sum of the %d-bit counters is %s on its way to the score: it wraps once (rows-1) x residues passes 2^31, and the "
+                         "score leaves the range 0..100" % (wmin, what), prog.config)
+    ck.floor("R17h", n, 1, "stores through the score pointer")
+
+
+def r17i(ck, prog):
+    """rows are matched by position after both alignments have been brought into one order: kalign_sort_msa sorts on every
+    success path, or what lets it skip the sort is a scan of all numseq-1 adjacent pairs of rows"""
+    from ..callgraph import CallGraph
+    from ..lift import Lifted
+    from ..affine import loop_range, lin, single_defs, Lin
+    F = prog.fn("kalign_sort_msa")
+    L = Lifted(prog, CallGraph(prog))
+    where = site(prog, F, "kalign_sort_msa")
+    if L.passes_through(F, "qsort"):
+        ck.inst("R17i", where, "every success path of kalign_sort_msa sorts", prog.config)
+        return
+    # a bypass: recognise an order scan over adjacent rows
+    subst = single_defs(F)
+    scans = []
+    for lp in F.body.find("ForStmt"):
+        rg = loop_range(lp, subst)
+        if rg is None:
+            continue
+        var, lo, hi = rg
+        for c in lp.child("body").calls("strncmp", "strcmp", "memcmp"):
+            offs = []
+            for a_ in c.args[:2]:
+                idx = [x for x in a_.walk() if x.k == "ArraySubscriptExpr" and x.kids[0].strip(casts=True).k == "MemberExpr" and
+                       x.kids[0].strip(casts=True).d.get("field") == "sequences"]
+                if len(idx) != 1:
+                    break
+                l = lin(idx[0].kids[1], subst)
+                if l is None or l.t != {var: 1}:
+                    break
+                offs.append(l.c)
+            if len(offs) == 2 and abs(offs[0] - offs[1]) == 1:
+                scans.append((lp, lo.add(Lin(min(offs))), hi.add(Lin(min(offs)))))
+    if not scans:
+        raise AnalysisBroken("R17i: kalign_sort_msa can return success without sorting, and no scan of adjacent rows that would justify it "
+                             "was recognised")
+    for lp, lo, hi in scans:
+        w = site(prog, lp, "order scan")
+        ck.inst("R17i", w, "kalign_sort_msa skips the sort after examining the adjacent pairs starting at [%s, %s)" % (lo, hi), prog.config)
+        full = lo.is_const() and lo.c == 0 and hi.t == {"msa->numseq": 1} and hi.c == -1
+        if not full:
+            ck.violation("R17i", "R17i/kalign_sort_msa/scan", w,
+                         "kalign_sort_msa skips the sort when the adjacent pairs starting at [%s, %s) are in order; the pairs are "
+                         "[0, msa->numseq - 1): rows outside the scan can be out of order, and rows of different sequences are then compared" % (lo, hi),
+                         prog.config)
+
+
 def r17g(ck, prog):
     """each alignment is rendered on its own: in kalign_msa_compare a call finalise_alignment(X) is guarded only by tests of X
     itself - whether the reference is rendered must not depend on the state of the test alignment or vice versa"""
@@ -418,6 +532,8 @@ def r17g(ck, prog):
 
 def run(ck, progs):
     describe(ck)
+    ck.rule("R17h", "no local variable or conversion narrower than the counter fields of struct cmp_stats lies between a counter and *score")
+    ck.rule("R17i", "kalign_sort_msa sorts on every success path, or skips the sort only after a scan of all numseq-1 adjacent pairs of rows")
     ck.rule("R17g", "finalise_alignment(X) in kalign_msa_compare is guarded by tests of X only")
     ck.rule("R17e", "each row-walking loop of compare_pair is bounded by the length of the alignment its rows belong to (pairing taken from the call site)")
     ck.rule("R17f", "the score is computed in double precision: no float-typed operand on the way from the counters to *score")
@@ -431,6 +547,8 @@ def run(ck, progs):
         ck.attempt(r17e, ck, prog)
         ck.attempt(r17f, ck, prog)
         ck.attempt(r17g, ck, prog)
+        ck.attempt(r17h, ck, prog)
+        ck.attempt(r17i, ck, prog)
     return ("CFG dominance of both sort calls over the pairing loop, argument pairing and loop ranges of the compare_pair "
             "call, field read set of the row-matching comparator; classification of compare_pair's counters by the row "
             "parameters their loops scan, and reaching definitions of numerator and denominator of the stored score.")
